@@ -290,6 +290,11 @@ func vh_udp_manyviews() {
 	vv := buffer.NewVectorisedView(8+nv, views)
 	id := stack.TransportEndpointID{LocalPort: 53, LocalAddress: vhLocal, RemotePort: 7, RemoteAddress: vhRemote}
 	u.e.HandlePacket(&u.r, id, vv)
+	// the deliverer reuses its array of views for the next frame (as the fd-based link endpoint
+	// does): a queued datagram must not depend on it
+	for i := range views {
+		views[i] = nil
+	}
 	q := u.vhQueue()
 	vassert(len(q) == 1 && vhSame(q[0].payload, payload), "a datagram arriving in many views is queued whole, byte for byte")
 	v, _, err := u.e.Read(nil)
